@@ -86,6 +86,8 @@ class Fuzzer:
         self.token_n = 0
         self.fail_next_schedule_db = False
         self.early_job_started = 0
+        self.intended_parents = {}
+        self.legacy_parent_keys = 0
         self.early_job_complete = 0
         self.interleavings = 0
         self.resource_manager = FakeResourceManager(world)
@@ -207,6 +209,12 @@ class Fuzzer:
                 spec['in_update_parent_ids'] = ps
             if prior_jobs and not self.cfg['discipline'] and rng.random() < self.cfg['parent_p'] * 0.8:
                 spec['absolute_parent_ids'] = sorted(rng.sample(prior_jobs, rng.randint(1, min(2, len(prior_jobs)))))
+            # the submission's dependency edges as the client means them (absolute job ids): the ledger the oracles compare
+            # the recorded job_parents rows with
+            self.intended_parents[(bid, start_job_id + i - 1)] = {start_job_id + q - 1 for q in ps} | set(spec.get('absolute_parent_ids', ()))
+            if 'absolute_parent_ids' in spec and rng.random() < self.cfg.get('legacy_parent_key_p', 0.35):
+                spec['parent_ids'] = spec.pop('absolute_parent_ids')  # pre-update clients' spelling (absolute ids)
+                self.legacy_parent_keys += 1
             if n_groups and rng.random() < 0.5:
                 spec['in_update_job_group_id'] = rng.randint(1, n_groups)
             elif rng.random() < 0.5:
